@@ -12,16 +12,15 @@ pub mod l7 {
       relation r1(i64, i64);
       relation r2(i64, i64);
       relation r3(i64);
-      lattice r4(Dual<i64>);
-      lattice r5(Dual<i64>);
-      r4(Dual(1)) <-- r3(v0);
-      r4(Dual(((v0.0) + 2))) <-- r4(v0), r2(v1, v2);
-      r5(Dual((*v0))) <-- r1(v0, v0);
-      r5(Dual(((v0.0) + 3))) <-- r5(v0), r5(v1);
-      r0(v0, v0) <-- r3(v0) if ((*v0) < 5);
-      r0(((*v1) + 1), v0) <-- r1(v0, v0), r0(v1, 2), if ((*v1) < 6);
-      r2(v2, v2) <-- r4(v0), r2(v1, v2);
-      r5(Dual(0)) <-- r4(v0);
+      lattice r4(Set<i64>);
+      lattice r5(Option<i64>);
+      r4(Set::singleton(1)) <-- r3(v0);
+      r4(v0) <-- r4(v0), r2(v1, v2);
+      r5(None) <-- r3(v0);
+      r5(v0) <-- r5(v0), r2(v1, v2);
+      r5(Some(0)) <-- r5(v0), r5(v1);
+      r2(v1, v1) <-- r5(v0), r0(v1, 0);
+      r5(Some(3)) <-- r4(v0);
    }
    pub struct Inst { p: Prog, pool: Option<ascent::rayon::ThreadPool> }
    pub fn make(pool: Option<usize>) -> Box<dyn Driver> {
@@ -36,13 +35,14 @@ pub mod l7 {
          1 => { let v: Vec<(i64,i64,)> = parse_rows(rows)?; if append { self.p.r1.extend(v) } else { self.p.r1 = v } },
          2 => { let v: Vec<(i64,i64,)> = parse_rows(rows)?; if append { self.p.r2.extend(v) } else { self.p.r2 = v } },
          3 => { let v: Vec<(i64,)> = parse_rows(rows)?; if append { self.p.r3.extend(v) } else { self.p.r3 = v } },
-         4 => { let v: Vec<(Dual<i64>,)> = parse_rows(rows)?; if append { self.p.r4.extend(v) } else { self.p.r4 = v } },
-         5 => { let v: Vec<(Dual<i64>,)> = parse_rows(rows)?; if append { self.p.r5.extend(v) } else { self.p.r5 = v } },
+         4 => { let v: Vec<(Set<i64>,)> = parse_rows(rows)?; if append { self.p.r4.extend(v) } else { self.p.r4 = v } },
+         5 => { let v: Vec<(Option<i64>,)> = parse_rows(rows)?; if append { self.p.r5.extend(v) } else { self.p.r5 = v } },
             _ => return None,
          }
          Some(())
       }
       fn run(&mut self) { match &self.pool { Some(pl) => { let p = &mut self.p; pl.install(|| p.run()) }, None => self.p.run() } }
+      fn run_here(&mut self) { self.p.run() }
       fn run_timeout(&mut self, k: usize) -> Option<bool> { let _ = k; None }
       fn dump(&self) -> String { vec![dump_rel(0, self.p.r0.iter().map(Row::render).collect()), dump_rel(1, self.p.r1.iter().map(Row::render).collect()), dump_rel(2, self.p.r2.iter().map(Row::render).collect()), dump_rel(3, self.p.r3.iter().map(Row::render).collect()), dump_rel(4, self.p.r4.iter().map(Row::render).collect()), dump_rel(5, self.p.r5.iter().map(Row::render).collect())].join(" | ") }
       fn iters(&self) -> String { format!("iters {}", self.p.scc_iters.iter().map(|x| x.to_string()).collect::<Vec<_>>().join(" ")) }
@@ -61,8 +61,8 @@ pub mod l15 {
       relation r1(i64);
       relation r2(i64);
       relation r3(i64, i64);
-      lattice r4(i64, i64);
-      r4(v0, 2) <-- r2(v0);
+      lattice r4(i64, Dual<i64>);
+      r4(v0, Dual(2)) <-- r2(v0);
       r4(v2, v1) <-- r4(v0, v1), r3(v2, v3);
       r0(v0) <-- r4(v0, v1);
    }
@@ -79,12 +79,13 @@ pub mod l15 {
          1 => { let v: Vec<(i64,)> = parse_rows(rows)?; if append { self.p.r1.extend(v) } else { self.p.r1 = v } },
          2 => { let v: Vec<(i64,)> = parse_rows(rows)?; if append { self.p.r2.extend(v) } else { self.p.r2 = v } },
          3 => { let v: Vec<(i64,i64,)> = parse_rows(rows)?; if append { self.p.r3.extend(v) } else { self.p.r3 = v } },
-         4 => { let v: Vec<(i64,i64,)> = parse_rows(rows)?; if append { self.p.r4.extend(v) } else { self.p.r4 = v } },
+         4 => { let v: Vec<(i64,Dual<i64>,)> = parse_rows(rows)?; if append { self.p.r4.extend(v) } else { self.p.r4 = v } },
             _ => return None,
          }
          Some(())
       }
       fn run(&mut self) { match &self.pool { Some(pl) => { let p = &mut self.p; pl.install(|| p.run()) }, None => self.p.run() } }
+      fn run_here(&mut self) { self.p.run() }
       fn run_timeout(&mut self, k: usize) -> Option<bool> { let _ = k; None }
       fn dump(&self) -> String { vec![dump_rel(0, self.p.r0.iter().map(Row::render).collect()), dump_rel(1, self.p.r1.iter().map(Row::render).collect()), dump_rel(2, self.p.r2.iter().map(Row::render).collect()), dump_rel(3, self.p.r3.iter().map(Row::render).collect()), dump_rel(4, self.p.r4.iter().map(Row::render).collect())].join(" | ") }
       fn iters(&self) -> String { format!("iters {}", self.p.scc_iters.iter().map(|x| x.to_string()).collect::<Vec<_>>().join(" ")) }
